@@ -127,8 +127,19 @@ func run(e *core.Env) {
 	perm := tp.Perm(12)
 	S := make([]*linkpair.Stack, n)
 	byIP := map[netip.Addr]int{}
+	// In a quarter of the runs one router has a privacy address: the shipped routing table has
+	// no prefix for it, so its peer route is refused - and then no link to it may stay
+	// registered either.
+	privacyAt := -1
+	if tp.Chance(1, 4) {
+		privacyAt = tp.Intn(n)
+		e.Probe("one_router_outside_the_routable_prefixes")
+	}
 	for i := range S {
 		id := ident.Get(ident.Routable, perm[i])
+		if i == privacyAt {
+			id = ident.Get(ident.Privacy, perm[i]%4)
+		}
 		S[i] = linkpair.NewStack(e, fmt.Sprintf("r%d", i), id, node.BaseStore(id), false)
 		byIP[id.IP] = i
 	}
